@@ -158,3 +158,25 @@ Print Assumptions C09_code_hook_disabled.
 Print Assumptions C09_code_hook_enabled.
 Print Assumptions C09_code_hook_add.
 Print Assumptions C09_code_hook_clear.
+
+(* ---- fit_stacked_data AS A WHOLE (Gen/G_main_loop_full.v, translated independently of its two parts) is its translated prefix - the
+   loop, returning the final state - followed by its translated suffix - the result assembly - for every log and whatever the
+   oracles answer (Proofs/GenEquivMF.v): the facts about the two parts (C09_code_*, C06_code_result_fields, C04_code_result_labels)
+   are facts about the function, and the place where the translator cuts it is not trusted ---- *)
+From Ticc Require Import Gen.G_main_loop Gen.G_main_loop_suffix Gen.G_main_loop_full Proofs.GenEquivMF.
+Theorem C09_code_whole_is_loop_then_assembly : forall (V : Type) (vnone : V) (vint : Z -> V) (as_int : V -> option Z) (veq : V -> V -> bool)
+    (getattr : V -> string -> V) (oracle : list (event V) -> string -> list V -> res V) (user_args data : V) (log : list (event V)),
+  g_fit_stacked_data_full V vnone vint as_int veq getattr oracle user_args data log =
+  mbind (g_fit_stacked_data V vnone as_int veq getattr oracle user_args data)
+        (fun st => g_fit_stacked_data_result V vint as_int getattr oracle st data (getattr (getattr data "shape"%string) "[0]"%string)) log.
+Proof. exact full_is_prefix_then_suffix. Qed.
+Print Assumptions C09_code_whole_is_loop_then_assembly.
+
+Theorem C09_code_whole_returns_split : forall (V : Type) (vnone : V) (vint : Z -> V) (as_int : V -> option Z) (veq : V -> V -> bool)
+    (getattr : V -> string -> V) (oracle : list (event V) -> string -> list V -> res V) (user_args data : V) (log log' : list (event V)) (r : V),
+  g_fit_stacked_data_full V vnone vint as_int veq getattr oracle user_args data log = (Ret r, log') ->
+  exists (st : V) (log1 : list (event V)),
+    g_fit_stacked_data V vnone as_int veq getattr oracle user_args data log = (Ret st, log1) /\
+    g_fit_stacked_data_result V vint as_int getattr oracle st data (getattr (getattr data "shape"%string) "[0]"%string) log1 = (Ret r, log').
+Proof. exact full_returns_split. Qed.
+Print Assumptions C09_code_whole_returns_split.
